@@ -774,7 +774,13 @@ def api_parity(prop, tier, kf):
             if w['name'] not in seen:
                 seen.add(w['name'])
                 ws.append(w)
-        text, ok, dropped, cmd, ll = build.compile_ir(cfg, ws, 'parity', keep=False)
+        try:
+            text, ok, dropped, cmd, ll = build.compile_ir(cfg, ws, 'parity', keep=False)
+        except RuntimeError as e:
+            first = [l for l in str(e).split('\n') if 'error:' in l][:1]
+            return cname, len(ws), 0, [{'cfg': cname, 'kind': 'parity:config-does-not-compile',
+                                        'wrapper': {'name': 'include_avel_' + cname, 'op': 'compile', 'type': '-', 'line': ''},
+                                        'desc': 'including <avel/Avel.hpp> does not compile in this configuration: %s' % (first or ['?'])[0][:200]}]
         okn = {w['name'] for w in ok}
         out = []
         for w, err in dropped:
